@@ -259,9 +259,9 @@ fn masks_case(rng: &mut Rng, rep: &mut Report, idx: u64) {
                         // solo layers covering it, in a given draw order
                         let cfgs = format!("door={} target={} face_cull={cull:?} depth_test={dt:?} color_write={cw} depth_write={dw} discard={discard:?} calls={}", if batch { "Batch::render" } else { "render()" }, tk.name(), calls.len());
                         // (colour, depth, fragments written, a Less/Greater test met exactly equal depths)
-                        let sim = |p: usize, order: &[usize], inclusive: bool| -> (u32, f32, usize, bool) {
+                        let sim = |p: usize, order: &[usize], inclusive: bool| -> (u32, f32, usize, bool, usize) {
                             let (x, y) = (p % fl.w as usize, p / fl.w as usize);
-                            let (mut c, mut z, mut fo, mut tie) = (COL_SENT, prior_z[p], 0usize, false);
+                            let (mut c, mut z, mut fo, mut tie, mut fo_any) = (COL_SENT, prior_z[p], 0usize, false, 0usize);
                             for &li in order {
                                 let l = &layers[li];
                                 let lz = l.z[p];
@@ -289,9 +289,12 @@ fn masks_case(rng: &mut Rng, rep: &mut Report, idx: u64) {
                                     if dw && tk.has_depth() {
                                         z = lz;
                                     }
+                                    if cw || (dw && tk.has_depth()) {
+                                        fo_any += 1;
+                                    }
                                 }
                             }
-                            (c, z, fo, tie)
+                            (c, z, fo, tie, fo_any)
                         };
                         // which call a layer (= triangle index) belongs to
                         let call_of: Vec<usize> = {
@@ -302,18 +305,25 @@ fn masks_case(rng: &mut Rng, rep: &mut Report, idx: u64) {
                             v
                         };
                         // first: submission order, the documented strict comparison
-                        let (mut exp_fi, mut exp_fo) = (0usize, 0usize);
+                        let (mut exp_fi, mut exp_fo, mut exp_fo_any) = (0usize, 0usize, 0usize);
                         let mut first_bad: Option<(usize, u32, f32)> = None;
                         for p in 0..npx {
                             let (cov, excluded) = cover(p);
                             exp_fi += cov.len();
-                            let (c, z, fo, _) = sim(p, cov, false);
+                            let (c, z, fo, _, fo_any) = sim(p, cov, false);
                             exp_fo += fo;
+                            exp_fo_any += fo_any;
                             if !excluded && (out.col[p] != c || out.z[p] != z.to_bits()) && first_bad.is_none() {
                                 first_bad = Some((p, c, z));
                             }
                         }
-                        let counts_bad = !any_multi && out.stats.6 != exp_fo;
+                        // "fragments written": to the colour buffer (as the library counts
+                        // today) or to either buffer — both are fair readings
+                        let counts_bad = !any_multi && out.stats.6 != exp_fo && out.stats.6 != exp_fo_any;
+                        if !any_multi && out.stats.6 != exp_fo && out.stats.6 == exp_fo_any {
+                            exp_fo = exp_fo_any;
+                            rep.count("stats.frags_o_counts_writes_to_either_buffer");
+                        }
                         let mut fo_explained = false;
                         if first_bad.is_some() || counts_bad {
                             // The statement fixes neither the order in which the triangles
@@ -351,7 +361,7 @@ fn masks_case(rng: &mut Rng, rep: &mut Report, idx: u64) {
                                     }
                                     let (mut plo, mut phi) = (usize::MAX, 0usize);
                                     for o in &orders {
-                                        let (c, z, fo, _) = sim(p, o, inclusive);
+                                        let (c, z, fo, _, _) = sim(p, o, inclusive);
                                         if excluded || (out.col[p] == c && out.z[p] == z.to_bits()) {
                                             plo = plo.min(fo);
                                             phi = phi.max(fo);
@@ -412,8 +422,11 @@ fn masks_case(rng: &mut Rng, rep: &mut Report, idx: u64) {
                         if pi != exp_pi {
                             bad.push(format!("prims.i={pi} expected {exp_pi}"));
                         }
-                        if vi != exp_vi {
-                            bad.push(format!("verts.i={vi} expected {exp_vi}"));
+                        // "vertices submitted": every vertex handed to each call (today's
+                        // count), or only those the call's triangles refer to
+                        let exp_vi_referenced: usize = calls.iter().map(|c| 3 * c.len()).sum();
+                        if vi != exp_vi && vi != exp_vi_referenced {
+                            bad.push(format!("verts.i={vi} expected {exp_vi} (or {exp_vi_referenced} referenced)"));
                         }
                         // a clip piece that is (nearly) degenerate on screen may or may
                         // not count as surviving: a renderer may drop zero-area pieces
